@@ -19,7 +19,7 @@ def leaves():
     f = futures.Future(lambda: "lazy")
     f.value()
     return [("none", None), ("const", futures.ConstFuture(7)), ("fut", f), ("err1", futures.ErrorFuture(E1)),
-            ("err2", futures.ErrorFuture(E2)), ("obj", object())]
+            ("err2", futures.ErrorFuture(E2)), ("obj", object()), ("zero", 0), ("emptystr", "")]
 
 
 def structures(depth, width):
@@ -126,7 +126,7 @@ def main():
         allf = all_futures(v, [])
         if sorted(map(id, allf)) != sorted(map(id, res)) and len(viol) < 3:
             viol.append({"name": "bounded:structures:leaves", "what": "extract_futures(%s) does not list exactly the futures of the structure" % name})
-    print(json.dumps({"name": "structures", "bound": "depth<=%d width<=3, 6 leaf kinds" % depth, "cases": cases,
+    print(json.dumps({"name": "structures", "bound": "depth<=%d width<=3, 8 leaf kinds (incl. falsy non-futures)" % depth, "cases": cases,
                       "distinct": len(distinct), "violations": viol,
                       "sample": sorted(distinct)[len(distinct) // 2: len(distinct) // 2 + 3]}))
 
